@@ -50,6 +50,9 @@ func c17SP() *saml2.SAMLServiceProvider {
 	sp.SetSPSigningKeyStore(world.SetterKeyStore("KE"))
 	sp.SignAuthnRequestsAlgorithm = c17Alg
 	sp.SignAuthnRequestsCanonicalizer = dsig.MakeC14N10ExclusiveCanonicalizerWithPrefixList("")
+	// a context list with a blank entry in the middle and a repeated one: anything that
+	// "tidies" the configured slice in place while building shows in the configuration snapshot
+	sp.RequestedAuthnContext = &saml2.RequestedAuthnContext{Comparison: saml2.AuthnPolicyMatchExact, Contexts: []string{saml2.AuthnContextPasswordProtectedTransport, " ", "urn:example:third", "urn:example:third"}}
 	return sp
 }
 
